@@ -170,4 +170,9 @@ def run(chk, ctx):
     r2(chk, ctx)
     r3(chk, ctx)
     r4(chk, ctx)
+    from . import c06, c09
+    c06.r3(chk, ctx, ctx.protocol(), ctx.mod("state_engine"))   # nothing is appended for events of terminated branches
+    c09.r1(chk, ctx)                                            # reading the history never changes it
+    from . import c20
+    c20.r5(chk, ctx, ctx.mod("store"))                           # replacing a record leaves no field of the old one behind, in every store kind
     chk.assume("json.dumps is deterministic for a given object; the topic producer delivers what it is given (C19)")
